@@ -241,6 +241,8 @@ func NewProgram(model Model, opts ...ProgramOption) *Program {
 	p := &Program{
 		initialModel: model,
 		msgs:         make(chan Msg),
+		// Made here rather than in Run, so that Wait may be called before Run.
+		finished: make(chan struct{}),
 	}
 
 	// Apply all options to the program.
@@ -543,7 +545,13 @@ func (p *Program) Run() (returnModel Model, returnErr error) {
 	p.handlers = channelHandlers{}
 	cmds := make(chan Cmd)
 	p.errs = make(chan error)
-	p.finished = make(chan struct{})
+	select {
+	case <-p.finished:
+		// Run has been called before and has completed: this run gets a
+		// finished signal of its own.
+		p.finished = make(chan struct{})
+	default:
+	}
 	defer close(p.finished)
 
 	defer p.cancel()
